@@ -54,7 +54,11 @@ RULE = ("unit cells of all seven crystal families (lattice parameters 2-22 A, op
         "from scaled atoms, new Box, safecopy), another System operated on.  "
         "Non-trivial: supersize - product > 1 with a negative or two-sided entry; rotate - matrix is not a signed "
         "permutation; refusal - the refused input differs from a valid one in a single row/entry; centering - "
-        "setting other than p")
+        "setting other than p.  "
+        "LENGTH SCALE: every length of a case (cell vectors, hence box origin and Cartesian positions, and the documented length "
+        "arguments atol / smallshift of conventional_to_primitive) is multiplied by 10^k: k = 0 in half of the cases, k = -10 (an "
+        "angstrom-sized cell in SI metres) in one in six, otherwise k in -12..6 (whole-number cells: 0..6); float16 / float32 position "
+        "arrays only where the scaled values stay inside the range of the type; all oracle tolerances are relative to the cell")
 ASSUMPTIONS = ["numpy linear algebra is correct",
                "per-atom property values are compared exactly (they are copied, never computed)",
                "the translation convention of rotate for a box whose origin is not (0,0,0) is not fixed by the property: "
@@ -68,14 +72,20 @@ ASSUMPTIONS = ["numpy linear algebra is correct",
                "(documented no-rotation shortcut: deep copy + in-place wrap) is only as precise as that dtype and is judged "
                "with float64 positions only",
                "supersize / rotate / the conversions return new systems: the system they are called on is compared with its "
-               "snapshot afterwards"]
+               "snapshot afterwards",
+               "units of the documented tolerance arguments (from docstrings and code): System.rotate `tol` is compared with box-relative "
+               "coordinates (atoms_prop('pos', scale=True)) and is dimensionless - never scaled; conventional_to_primitive `atol` "
+               "('absolute tolerance ... atoms in the expected lattice positions') is compared with Cartesian distances and lattice "
+               "parameters and `smallshift` is added to atoms.pos - both are lengths in working units with absolute documented defaults "
+               "(1e-8, 0.001) and are passed multiplied by the length unit of the cell; primitive_to_conventional takes no tolerance"]
 LEVEL_TEXT = ("Random unit cells of every crystal family with face / rational / generic / near-face atoms, all multiplier "
               "forms up to 60 replicas, integer re-orientation matrices up to index 4 and |det| 24 of both handedness "
               "(3x4 for hexagonal), all eight centering settings in both conversion directions; each result is mapped "
               "back atom by atom onto the original crystal.  Every call is judged on cells in all documented input forms "
               "(lists, tuples, integer / float32 / float16 / non-contiguous / read-only arrays, scale=True, safecopy) and after "
               "1-3 earlier operations on the same object or in the same process (origin / cell / positions changed through "
-              "every public setter, derived quantities read, earlier calls, rebuilds), against a numpy model of the history.")
+              "every public setter, derived quantities read, earlier calls, rebuilds), against a numpy model of the history.  "
+              "Half of the cases are expressed in another length unit (all lengths x 10^k, k in -12..6, SI metres favoured).")
 TECHNIQUE = "lattice map-back with multiplicity and coincidence counting (independent numpy reference), proper-rotation and LAMMPS-form checks"
 WALL = {'quick': 75, 'thorough': 600}
 
@@ -86,6 +96,8 @@ FAMILIES = gens.FAMILIES
 K_FAR = 'C04:rotate:filtering-failed:box-origin-outside-first-cell'
 K_NEAR = 'C04:rotate:filtering-failed:atoms-within-tol-ladder-of-face'
 K_RUNG = 'C04:rotate:atom-exactly-on-tolerance-rung'
+K_HEX = 'C04:rotate:hexagonal-test-absolute-1e-8:a-and-b-differ-by-less-than-1e-8-length-units'
+K_ZERO = 'C04:conventional_to_primitive:zero-site-search-absolute-1e-8:one-atom-within-1e-8-length-units-of-origin'
 
 
 def _atom_on_ladder_rung(res):
@@ -141,6 +153,11 @@ def dedupe(atoms, minsep=0.04):
 
 # ----------------------------------------------------------------------------- unit cells (cases -> numbers)
 
+def ucell_scale(u):
+    """the length unit of the case: every length of the unit cell is a multiple of it (1.0 for cases written before the scale existed)"""
+    return float(u.get('scale', 1.0))
+
+
 def ucell_numbers(u):
     """V (rows), origin, relative coords, types, vec from a unit-cell case dict (numpy only)"""
     if u.get('whole'):
@@ -153,6 +170,9 @@ def ucell_numbers(u):
         V[2] = -V[2]
     if u.get('rot'):
         V = V @ gens.rotation_matrix(*u['rot']).T
+    # overall LENGTH SCALE 10^k of the whole geometric input (cell vectors, hence origin = orel.V and positions = s.V + o):
+    # the property holds whatever the length unit (angstrom, nm, Bohr, SI metres: a lattice parameter of 4e-10)
+    V = V * ucell_scale(u)
     s = np.array(u['atoms'], dtype=float).reshape(-1, 3)
     o = np.array(u['orel'], dtype=float) @ V
     return V, o, s, [int(t) for t in u['types']], np.array(u['vec'], dtype=float).reshape(-1, 3)
@@ -256,13 +276,17 @@ def build_system(am, u, forms=None, labels=None):
     pf, bf, sf = forms['pos'], forms['box'], forms['sys']
     if pf in LOWPREC:
         # the unit cell is the one of the stored, rounded values; fall back to the next finer type when the rounding
-        # would bring two atoms within 0.01 length units of one another modulo the lattice (float16 resolves 0.03 at 60)
+        # would bring two atoms within 0.01 length units of one another modulo the lattice (float16 resolves 0.03 at 60),
+        # or when the values of a scaled cell leave the range of the type (float16 overflows at 6.5e4 and has nothing below 6e-8)
         for f in ((pf, 'f32', 'float') if pf == 'f16' else (pf, 'float')):
             if f == 'float':
                 pf = f
                 break
-            q = np.asarray(_form_pos(M.pos, f), dtype=float)
-            if not cm.coincidences(q, V, o, 0.01, max_pairs=1):
+            with np.errstate(over='ignore'):
+                q = np.asarray(_form_pos(M.pos, f), dtype=float)
+            if not np.all(np.isfinite(q)) or np.abs(q - M.pos).max() > 2.0 ** -10 * np.abs(M.pos).max():
+                continue        # overflow / underflow: not the rounding of the type (never at angstrom scale)
+            if not cm.coincidences(q, V, o, 0.01 * ucell_scale(u), max_pairs=1):
                 pf = f
                 M.pos = q
                 M.s = cm.rel_coords(q, V, o)
@@ -301,6 +325,19 @@ def ucell_labels(u):
         labs.add('nearface')
     if u.get('whole'):
         labs.add('whole')
+    labs.update(scale_labels(ucell_scale(u)))
+    return labs
+
+
+def scale_labels(sc):
+    """'scaled': the length unit of the case is not 1; 'scale_si': 1e-10 (angstrom-sized cell in metres); scale_small / scale_big"""
+    if sc == 1.0:
+        return {'scale_1'}
+    labs = {'scaled', 'scale_small' if sc < 1.0 else 'scale_big'}
+    if sc == 1e-10:
+        labs.add('scale_si')
+    if sc <= 1e-8:
+        labs.add('scale_le_1e-8')
     return labs
 
 
@@ -565,6 +602,10 @@ def prepare(am, case, labels):
     return system, M, snapshot(system)
 
 
+def _scale_note(sc):
+    return '' if sc == 1.0 else ' [all lengths of the unit cell in units of %g]' % sc
+
+
 def snapshot(system):
     return dict(pos=np.array(system.atoms.pos), atype=np.array(system.atoms.atype), tag=np.array(system.atoms.tag),
                 vec=np.array(system.atoms.vec), vects=np.array(system.box.vects), origin=np.array(system.box.origin),
@@ -585,7 +626,12 @@ def require_untouched(system, snap, what):
 # (uniform) plus one hash seed that spreads them into quasi-continuous values.
 _int10 = st.integers(0, 9)
 _byte = st.integers(0, 255)
-_hdr = st.lists(_byte, min_size=14, max_size=14)
+_hdr = st.lists(_byte, min_size=15, max_size=15)
+# overall length scale 10^k (header byte 14 modulo 64): k = 0 in half of the cases (index 0: what cases shrink to), the SI value
+# -10 favoured, the rest spread over -12..6; whole-number cells (handed over as integers) only k >= 0
+SCALE_K = (0,) * 32 + (-10,) * 10 + (-12, -11, -9, -8, -7, -6, -5, -4, -3, -2, -1, 1, 2, 3, 4, 5, 6, -12, -8, -6, 3, 6)
+SCALE_K_WHOLE = (0,) * 32 + (1, 2, 3, 4, 5, 6) * 5 + (1, 6)
+assert len(SCALE_K) == 64 and len(SCALE_K_WHOLE) == 64
 _coords = [None] + [st.lists(_byte, min_size=3 * n, max_size=3 * n) for n in range(1, 6)]
 NATOMS = (1, 2, 2, 3, 3, 3, 4, 4, 5, 5)
 _rot = gens.rotations(min_angle=1.0)
@@ -713,7 +759,7 @@ def ucells(draw, family=None, far_origin=True, allow_lh=True, nearface=None, max
         return {'family': fam, 'abc': abc, 'rot': None, 'lh': False, 'orel': orel, 'atoms': atoms,
                 'types': [1 + int(3 * _jit(sd, 200 + i)) % 3 for i in range(len(atoms))],
                 'vec': [[round(10.0 * _jit(sd, 300 + 3 * i + c) - 5.0, 3) for c in range(3)] for i in range(len(atoms))],
-                'whole': True}
+                'whole': True, 'scale': 10.0 ** SCALE_K_WHOLE[hd[14] % 64]}
     fam = family or FAMILIES[hd[13] % len(FAMILIES)]
     d_origin, d_rot, d_lh, d_n = hd[9] % 10, hd[10] % 10, hd[11] % 10, hd[12] % 10
     abc = _family_abc(fam, [_u01(hd[i], sd, i) for i in range(3)], [_u01(hd[3 + i], sd, 3 + i) for i in range(3)])
@@ -748,7 +794,7 @@ def ucells(draw, family=None, far_origin=True, allow_lh=True, nearface=None, max
     rot = draw(_rot) if d_rot >= 7 else None
     lh = bool(allow_lh and d_lh == 9)
     u = {'family': fam, 'abc': abc, 'rot': rot, 'lh': lh, 'orel': orel,
-         'atoms': atoms, 'types': types, 'vec': vec}
+         'atoms': atoms, 'types': types, 'vec': vec, 'scale': 10.0 ** SCALE_K[hd[14] % 64]}
     if nf:
         u['nearface'] = True
     return u
@@ -829,8 +875,9 @@ def map_back(motif, snap, res, T, o_old, mult, what, check_new_lattice=True, tag
     return reading, rep
 
 
-def match_tol(*arrays):
-    L = max([1.0] + [float(np.abs(np.asarray(a)).max()) for a in arrays if np.asarray(a).size])
+def match_tol(*arrays, unit=1.0):
+    """matching distance: 1e-7 of the largest length in the case (cell, origins, positions), at least 1e-7 length units"""
+    L = max([1.0 * unit] + [float(np.abs(np.asarray(a)).max()) for a in arrays if np.asarray(a).size])
     return 1e-7 * L
 
 
@@ -894,7 +941,8 @@ def oracle_supersize(case):
         labels.add('arg_' + ('np' if sz['f'].startswith('np') else sz['f']))
     n = ks[0] * ks[1] * ks[2]
     res = sys0.supersize(*args)
-    what = 'supersize%r' % (tuple(args),)
+    sc = ucell_scale(u)
+    what = 'supersize%r' % (tuple(args),) + _scale_note(sc)
     if case.get('hist') or case.get('forms'):
         what += ' [unit cell given as %r, after the history %r]' % (case.get('forms') or DEFAULT_FORMS, case.get('hist'))
     N = len(pos0)
@@ -915,7 +963,7 @@ def oracle_supersize(case):
     require(abs(vol - n * vol0) <= 1e-8 * n * vol0, lambda: '%s: volume %.12g, expected %d x %.12g' % (what, vol, n, vol0))
     bvol = float(res.box.volume)
     require(abs(bvol - n * vol0) <= 1e-8 * n * vol0, lambda: '%s: box.volume %.12g, expected %d x %.12g' % (what, bvol, n, vol0))
-    tol = match_tol(expB, expo, o)
+    tol = match_tol(expB, expo, o, unit=sc)
     motif = cm.Motif(V, o, pos0, tol)
     # absolute positions, no rotation
     rep = cm.compare_crystal(motif, np.asarray(res.atoms.pos, dtype=float), mult=n, newV=B, new_origin=bo)
@@ -1100,7 +1148,8 @@ def oracle_rotate(case):
         labels.update({'opt', 'opt_' + opt})
     if hex4:
         labels.add('hex4')
-    what = 'rotate(%r)' % (uv,)
+    sc = ucell_scale(u)
+    what = 'rotate(%r)' % (uv,) + _scale_note(sc)
     if case.get('hist') or case.get('forms') or opt:
         what += ' [%s; unit cell given as %r, after the history %r]' % (opt or 'return_transform=True', case.get('forms') or DEFAULT_FORMS, case.get('hist'))
     kw = _rotate_kwargs(opt)
@@ -1150,7 +1199,7 @@ def oracle_rotate(case):
     vol = abs(float(np.linalg.det(B)))
     require(abs(vol - n * vol0) <= (1e-8 + 40 * EPS * condW ** 2) * n * vol0,
             lambda: '%s: volume %.12g, expected |det| x original = %d x %.12g' % (what, vol, n, vol0))
-    tol = match_tol(W, o, bo, res.atoms.pos)
+    tol = match_tol(W, o, bo, res.atoms.pos, unit=sc)
     motif = cm.Motif(V, o, pos0, tol)
     try:
         reading, rep = map_back(motif, snap, res, T, o, n, what)
@@ -1175,7 +1224,7 @@ def oracle_rotate(case):
 
 _frac = gens.nice(0.05, 0.95, 3)
 _rkind = st.sampled_from(['coplanar', 'coplanar', 'parallel', 'zero_row', 'nonint', 'nonint', 'hex_on_nonhex',
-                          'hex_sum', 'shape'])
+                          'hex_sum', 'shape', 'hex_on_pseudohex'])
 _small = st.integers(-2, 2)
 _idx3 = st.integers(0, 2)
 _shapes = st.sampled_from([[2, 3], [3, 2], [3, 5], [4, 3], [9], [1, 3, 3]])
@@ -1189,6 +1238,12 @@ def refusal_cases(draw):
         u = draw(ucells(family='hexagonal', far_origin=False))
     elif kind == 'hex_on_nonhex':
         u = draw(ucells(family=draw(st.sampled_from([f for f in FAMILIES if f != 'hexagonal'])), far_origin=False))
+    elif kind == 'hex_on_pseudohex':
+        # the angles of a hexagonal cell (90, 90, 120) with a != b (b/a = 1.15..1.6): a c-unique monoclinic cell, not hexagonal
+        # in any length unit
+        u = draw(ucells(family='orthorhombic', far_origin=False))
+        u['abc'] = u['abc'][:3] + [90.0, 90.0, 120.0]
+        u['family'] = 'monoclinic'
     else:
         u = draw(ucells(far_origin=False))
     M = [list(r) for r in draw(int_matrices())]
@@ -1206,7 +1261,7 @@ def refusal_cases(draw):
         c = draw(_idx3)
         M = [[float(x) for x in r] for r in M]
         M[i][c] = M[i][c] + draw(_frac)
-    elif kind in ('hex_on_nonhex', 'hex_sum'):
+    elif kind in ('hex_on_nonhex', 'hex_sum', 'hex_on_pseudohex'):
         H = draw(hex_matrices())
         if kind == 'hex_sum':
             H[i][2] += draw(st.sampled_from([-2, -1, 1, 2]))
@@ -1226,6 +1281,7 @@ REFUSAL_MSG = {
     'zero_row': ('New box has no atoms/volume',),
     'nonint': ('must be integer',),
     'hex_on_nonhex': ('hexagonal indices only work on hexagonal systems',),
+    'hex_on_pseudohex': ('hexagonal indices only work on hexagonal systems',),
     'hex_sum': ('u+v+t != 0',),
     'shape': ('Invalid uvws crystal indices shape',),
 }
@@ -1235,7 +1291,7 @@ def oracle_refusal(case):
     import atomman as am
     u = case['ucell']
     labels = ucell_labels(u)
-    sys0, _model, snap = prepare(am, case, labels)
+    sys0, model, snap = prepare(am, case, labels)
     kind = case['kind']
     labels.add(kind)
     M = case['uvws']
@@ -1247,7 +1303,7 @@ def oracle_refusal(case):
         arg = np.asfortranarray(np.array(M))
     else:
         arg = np.array(M)
-    what = 'rotate(%r) [%s]' % (M, kind)
+    what = 'rotate(%r) [%s]' % (M, kind) + _scale_note(ucell_scale(u))
     if case.get('hist') or case.get('forms'):
         what += ' [unit cell given as %r, after the history %r]' % (case.get('forms') or DEFAULT_FORMS, case.get('hist'))
     try:
@@ -1260,6 +1316,13 @@ def oracle_refusal(case):
         labels.update({'refusal', 'nt'})
         return labels
     res = out[0] if isinstance(out, tuple) else out
+    if kind == 'hex_on_pseudohex':
+        a, b = float(np.linalg.norm(model.V[0])), float(np.linalg.norm(model.V[1]))
+        if abs(a - b) <= 1.01e-8 + 1e-5 * max(a, b):
+            # rotate decides "hexagonal" with Box.ishexagonal() at its defaults: numpy.isclose(a, b, rtol=1e-5, atol=1e-8), the 1e-8
+            # in working length units, so in metres (a = 3e-10, b = 4e-10) every cell with angles 90, 90, 120 passes
+            raise Violation('%s: no refusal; Miller-Bravais indices accepted on a cell with a = %.6g, b = %.6g (b/a = %.4f) because '
+                            '|a - b| < 1e-8 length units' % (what, a, b, b / a), key=K_HEX)
     raise Violation('%s: no refusal; returned a system of %r atoms for %s' % (
         what, getattr(res, 'natoms', None),
         'vectors of zero determinant' if kind in ('coplanar', 'parallel', 'zero_row') else 'an input outside the documented forms'))
@@ -1360,9 +1423,23 @@ def _dump(am, system, style, entry, **args):
     return system.dump(style, **args)
 
 
-def _c2p(am, system, setting, basis, entry='method', **kw):
-    """conventional_to_primitive with the documented refusal turned into None"""
+def _c2p_note(unit):
+    return '' if unit == 1.0 else ', atol=%g, smallshift=[%g, %g, %g]' % ((1e-8 * unit,) + (0.001 * unit,) * 3)
+
+
+def _c2p(am, system, setting, basis, entry='method', unit=1.0, **kw):
+    """conventional_to_primitive with the documented refusal turned into None.
+    unit: the length unit of the cell.  Two documented arguments of the conversion are lengths in working units and are
+    handed over in the unit of the cell when that is not 1: `atol` ("Absolute tolerance to use for numpy.isclose ... to check
+    that the conventional cell has atoms in the expected lattice positions": compared with Cartesian distances system.dmag
+    and, through Box.identifyfamily, with lattice parameters; default 1e-8) and `smallshift` ("small rigid body shift to apply
+    to the atomic positions": added to atoms.pos; default [0.001, 0.001, 0.001]).  Neither default is documented as
+    unit-aware.  (rotate's `tol` is compared with box-relative coordinates - "which atoms are inside the box", applied to
+    atoms_prop('pos', scale=True) - so it is dimensionless and is never scaled; primitive_to_conventional has no tolerance.)"""
     args = dict(setting=setting, return_transform=True)
+    if unit != 1.0:
+        args['atol'] = 1e-8 * unit
+        args['smallshift'] = [0.001 * unit, 0.001 * unit, 0.001 * unit]
     if not basis:
         args['check_basis'] = False
     args.update(kw)
@@ -1374,7 +1451,54 @@ def _c2p(am, system, setting, basis, entry='method', **kw):
         raise
 
 
+_IMAGES = np.array(list(itertools.product((-2, -1, 0, 1, 2), repeat=3)), dtype=float)
+
+
+def _dist_to_zero(V, pos, cent):
+    """distance of every atom (rows of pos; lattice V decorated with the centering translations cent, relative) to the
+    Cartesian point (0,0,0) modulo the centred lattice: reduced image and its 124 neighbours (numpy only)"""
+    out = np.empty(len(pos))
+    for j, r in enumerate(np.asarray(pos, dtype=float)):
+        best = np.inf
+        for ct in np.asarray(cent, dtype=float):
+            s = cm.rel_coords(r, V) + ct
+            s = s - np.rint(s)
+            best = min(best, float(np.sqrt((((s[None, :] + _IMAGES) @ V) ** 2).sum(axis=1)).min()))
+        out[j] = best
+    return out
+
+
+def _zero_site_class(V, pos, cent, k, negligible):
+    """the input class of the open finding K_ZERO: conventional_to_primitive looks for "the atom near periodic (0,0,0)" with
+    numpy.isclose(dmag, 0.0) - an undocumented absolute 1e-8 in working length units - and, when exactly one atom of the
+    primitive cell answers, moves all atoms so that it sits exactly on (0,0,0).  In a cell given in metres (or any unit in which
+    1e-8 is not far below the interatomic distances) that atom can be anywhere within 1e-8 of the origin, and the crystal is
+    rigidly displaced by its position.  Class: exactly one atom of the primitive cell (the k centering copies of a motif atom
+    are one primitive atom) lies within 1e-8 length units of Cartesian (0,0,0) modulo the lattice - decided with a 1e-6
+    relative margin on the 1e-8 - and it is farther from it than `negligible`."""
+    d = _dist_to_zero(V, pos, cent)
+    d = d.reshape(-1, k).min(axis=1) if (k > 1 and len(d) % k == 0) else d
+    n_hi = int(np.sum(d <= 1e-8 * (1 + 1e-6)))
+    n_lo = int(np.sum(d <= 1e-8 * (1 - 1e-6)))
+    inwin = d[d <= 1e-8 * (1 + 1e-6)]
+    return bool(n_hi >= 1 and n_lo <= 1 and inwin.max() > negligible)
+
+
 def oracle_centering(case):
+    """the centering oracle; a violation met after a conventional_to_primitive call on a cell of the K_ZERO class is keyed"""
+    state = {}
+    try:
+        return _oracle_centering(case, state)
+    except Violation as v:
+        z = state.get('zero')
+        if v.key is None and z is not None and _zero_site_class(*z):
+            raise Violation(v.detail + ' [exactly one atom of the primitive cell lies within 1e-8 length units of (0,0,0) without being '
+                            'on it: conventional_to_primitive takes it for "the atom at the lattice site" (numpy.isclose(dmag, 0.0), '
+                            'absolute 1e-8 whatever the length unit) and moves it onto (0,0,0)]', key=K_ZERO)
+        raise
+
+
+def _oracle_centering(case, state):
     import atomman as am
     u = case['ucell']
     setting = case['setting']
@@ -1389,12 +1513,16 @@ def oracle_centering(case):
     if case.get('hist') or case.get('forms'):
         hnote = ' [unit cell given as %r, after the history %r]' % (case.get('forms') or DEFAULT_FORMS, case.get('hist'))
     N = len(pos0)
+    sc = ucell_scale(u)
+    hnote += _scale_note(sc)
     given = 't' if case.get('generic_t') else setting
     if case.get('generic_t'):
         labels.add('generic_t')
     if case['direction'] == 'c2p2c':
-        what = "dump('conventional_to_primitive', setting=%r%s)%s" % (given, '' if basis else ', check_basis=False', hnote)
-        out = _c2p(am, sys0, given, basis, entry)
+        what = "dump('conventional_to_primitive', setting=%r%s%s)%s" % (given, '' if basis else ', check_basis=False', _c2p_note(sc), hnote)
+        if sc < 1.0:
+            state['zero'] = (V, pos0, CENTERING[setting], k, 1e-3 * match_tol(V, o, unit=sc))
+        out = _c2p(am, sys0, given, basis, entry, unit=sc)
         if out is None:
             require_untouched(sys0, snap, what)      # a refusal leaves its operand alone
             return labels | {'refusal'}
@@ -1404,7 +1532,7 @@ def oracle_centering(case):
         require_props_present(p, what)
         Bp, bpo = require_lammps_inside(p, what)
         _lattice_is_centered(Bp @ T1, V, setting, what)
-        tol = match_tol(V, o, Bp, p.atoms.pos)
+        tol = match_tol(V, o, Bp, p.atoms.pos, unit=sc)
         motif = cm.Motif(V, o, pos0, tol)
         # every primitive atom lies on a conventional atom (modulo the conventional lattice) and carries the
         # properties of it or of one of its centering copies (the final wrap of the primitive cell may move an
@@ -1433,7 +1561,7 @@ def oracle_centering(case):
         Bc, bco = require_lammps_inside(c2, what2)
         _same_params(Bc, V, what2)
         T21 = T2 @ T1
-        map_back(cm.Motif(V, o, pos0, match_tol(V, o, Bc, c2.atoms.pos)), snap, c2, T21, o, 1, what2, tagdiv=k)
+        map_back(cm.Motif(V, o, pos0, match_tol(V, o, Bc, c2.atoms.pos, unit=sc)), snap, c2, T21, o, 1, what2, tagdiv=k)
     else:
         what = "dump('primitive_to_conventional', setting=%r)%s" % (setting, hnote)
         c, T1 = _dump(am, sys0, 'primitive_to_conventional', entry, setting=setting, return_transform=True)
@@ -1447,12 +1575,14 @@ def oracle_centering(case):
         require(np.abs(Q - np.rint(Q)).max() <= 1e-7, lambda: '%s: conventional cell vectors are not lattice vectors of the primitive cell: indices\n%r' % (what, Q))
         dq = abs(float(np.linalg.det(Q)))
         require(abs(dq - k) <= 1e-6, lambda: '%s: conventional cell has %.9g primitive volumes, expected %d' % (what, dq, k))
-        motif = cm.Motif(V, o, pos0, match_tol(V, o, Bc, c.atoms.pos))
+        motif = cm.Motif(V, o, pos0, match_tol(V, o, Bc, c.atoms.pos, unit=sc))
         map_back(motif, snap, c, T1, o, k, what)
         # and back
         extra = {} if not basis else {'check_family': False}
-        what2 = what + " -> dump('conventional_to_primitive', setting=%r, %s)" % (given, 'check_family=False' if basis else 'check_basis=False')
-        out = _c2p(am, c, given, basis, entry, **extra)
+        what2 = what + " -> dump('conventional_to_primitive', setting=%r, %s%s)" % (given, 'check_family=False' if basis else 'check_basis=False', _c2p_note(sc))
+        if sc < 1.0:
+            state['zero'] = (V, pos0, CENTERING['p'], 1, 1e-3 * match_tol(V, o, unit=sc))
+        out = _c2p(am, c, given, basis, entry, unit=sc, **extra)
         if out is None:
             return labels | {'refusal'}
         p2, T2 = out
@@ -1461,7 +1591,7 @@ def oracle_centering(case):
         require_props_present(p2, what2)
         Bp, bpo = require_lammps_inside(p2, what2)
         _same_params(Bp, V, what2)
-        map_back(cm.Motif(V, o, pos0, match_tol(V, o, Bp, p2.atoms.pos)), snap, p2, T2 @ T1, o, 1, what2)
+        map_back(cm.Motif(V, o, pos0, match_tol(V, o, Bp, p2.atoms.pos, unit=sc)), snap, p2, T2 @ T1, o, 1, what2)
     if setting != 'p':
         labels.add('nt')
     return labels
@@ -1470,19 +1600,23 @@ def oracle_centering(case):
 CLAUSES = [
     Clause('supersize', oracle_supersize, supersize_cases, quick=7000, thorough=120000,
            min_share={'nt': 0.3, 'onface': 0.3, 'two_sided': 0.12, 'arg_np': 0.08, 'mults_distinct': 0.15, 'origin_small': 0.12,
-                      'multitype': 0.3, 'hist': 0.18, 'hist_origin': 0.06, 'forms': 0.28, 'whole': 0.05},
+                      'multitype': 0.3, 'hist': 0.18, 'hist_origin': 0.06, 'forms': 0.28, 'whole': 0.05,
+                      'scaled': 0.22, 'scale_1': 0.22, 'scale_si': 0.055, 'scale_small': 0.15, 'scale_big': 0.08},
            desc='supersize: count, box, origin, volume; every replica maps back onto one original atom with its type/tag/vector, each original N times, no coincidences; all input forms, after histories'),
     Clause('rotate', oracle_rotate, rotate_cases, quick=20000, thorough=300000,
            min_share={'nt': 0.4, 'onface': 0.3, 'detneg': 0.2, 'hex4': 0.05, 'bigdet': 0.2, 'nearface': 0.05,
                       'origin_small': 0.12, 'lefthanded': 0.03, 'rigid_rot': 0.08, 'multitype': 0.3, 'form_float': 0.06,
-                      'hist': 0.18, 'hist_origin': 0.06, 'forms': 0.27, 'whole': 0.04, 'opt': 0.15},
+                      'hist': 0.18, 'hist_origin': 0.06, 'forms': 0.27, 'whole': 0.04, 'opt': 0.15,
+                      'scaled': 0.22, 'scale_1': 0.22, 'scale_si': 0.06, 'scale_small': 0.15, 'scale_big': 0.08},
            desc='rotate: proper rotation returned, box = T.(uvws.vects), LAMMPS form, atoms inside, count/volume x|det|, map-back through T with multiplicity |det|; all input forms and options, after histories'),
     Clause('refusal', oracle_refusal, refusal_cases, quick=2500, thorough=30000,
-           min_share={'nt': 0.9, 'coplanar': 0.08, 'nonint': 0.09, 'parallel': 0.05, 'shape': 0.05, 'hist': 0.2, 'forms': 0.22},
+           min_share={'nt': 0.9, 'coplanar': 0.08, 'nonint': 0.09, 'parallel': 0.05, 'shape': 0.05, 'hist': 0.2, 'forms': 0.22,
+                      'scaled': 0.2, 'scale_1': 0.22, 'scale_si': 0.05, 'scale_small': 0.15, 'scale_big': 0.06},
            desc='coplanar / parallel / non-integer / wrong-shape vector sets raise the documented ValueError and leave the system untouched (whatever its history)'),
     Clause('centering', oracle_centering, centering_cases, quick=6500, thorough=100000,
            min_share={'nt': 0.45, 'c2p2c': 0.3, 'p2c2p': 0.15, 'setting_t1': 0.07, 'setting_t2': 0.07, 'setting_f': 0.08,
-                      'nobasis': 0.12, 'multitype': 0.3, 'hist': 0.15, 'hist_origin': 0.04, 'forms': 0.24, 'entry_function': 0.09},
+                      'nobasis': 0.12, 'multitype': 0.3, 'hist': 0.15, 'hist_origin': 0.04, 'forms': 0.24, 'entry_function': 0.09,
+                      'scaled': 0.22, 'scale_1': 0.22, 'scale_si': 0.06, 'scale_small': 0.16, 'scale_big': 0.06},
            max_share={'refusal': 0.05},
            desc='conventional<->primitive conversions for p,a,b,c,i,f,t1,t2: same crystal, primitive lattice = centred lattice, N/k atoms, and the two conversions undo one another; all input forms, both entry points, after histories'),
 ]
